@@ -499,6 +499,80 @@ def kind_edges(fx, fn, pidx, keep):
     return removed, n
 
 
+KIND_TESTS = {"is_object": "Object", "is_array": "Array", "is_string": "String", "is_number": "Number", "is_boolean": "Bool", "is_null": "Null",
+              "is_i64": "Number", "is_u64": "Number", "is_f64": "Number"}
+
+
+def _closure_under_kind(fx, cname, kind):
+    """the bool a one-argument predicate closure over a `&Value` returns when its argument is a JSON value of `kind`: True / False, or None
+    when that is not decided by kind tests alone (`v.is_object() || v.is_array()`, `matches!(v, Value::Object(_) | ..)`, negations)"""
+    if cname not in fx.fns:
+        return None
+    C = fx.view(cname)
+    cv = vals(C)
+    ps = [i for i in range(1, C.arg_count + 1) if "serde_json::Value" in (C.local_ty(i) or "")]
+    if len(ps) != 1:
+        return None
+    p = ps[0]
+    is_item = lambda x: peel(x).kind == "param" and peel(x).d["idx"] == p
+
+    def ev(x, depth=0):
+        x = peel(x)
+        c = const_value(x)
+        if isinstance(c, bool):
+            return c
+        if x.kind == "call" and x.d["term"].get("name") in KIND_TESTS and (x.d["term"].get("self_ty") or "").lstrip("&") == "serde_json::Value" and x.kids and is_item(x.kids[0]):
+            return KIND_TESTS[x.d["term"]["name"]] == kind
+        if x.kind == "unop" and x.d.get("op") == "Not" and x.kids and depth < 6:
+            r = ev(x.kids[0], depth + 1)
+            return None if r is None else (not r)
+        return None
+    rem, _n = kind_edges(fx, C, p, (kind,))
+    for (bb, tt, ft, c) in bool_switches(C):
+        r = ev(c)
+        if r is True:
+            rem.append((bb, ft))
+        elif r is False:
+            rem.append((bb, tt))
+    reach = cfg.reachable(C, [0], removed_edges=rem)
+    outs = set()
+    for e in cfg.exit_sites(C):
+        if e["bb"] not in reach:
+            continue
+        if "rv" in e:
+            outs.add(ev(cv._rv(e["rv"], e["bb"], e["idx"])))
+        elif e.get("kind") == "call":
+            outs.add(ev(cv.call_node(e["bb"])))
+        else:
+            return None
+    if len(outs) == 1 and None not in outs:
+        return list(outs)[0]
+    return None
+
+
+def no_container_edges(fx, W, p):
+    """edges of W on which its container parameter is known to hold no array and no object (`!arr.iter().any(|v| v.is_object() || v.is_array())`,
+    `obj.values().all(|v| !..)`): handing such a container back as it is equals walking it"""
+    out = []
+    for (bb, tt, ft, c) in bool_switches(W):
+        c = peel(c)
+        if c.kind != "call" or c.d["term"].get("name") not in ("any", "all") or len(c.kids) != 2:
+            continue
+        if common.param_roots(c.kids[0]) != {p}:
+            continue
+        if any(x.kind == "call" and x.d["term"].get("name") in ("filter", "skip", "take", "step_by", "skip_while", "take_while", "filter_map", "rev") for x in walk(c.kids[0])):
+            continue
+        cl = peel(c.kids[1])
+        if cl.kind != "agg" or cl.d["agg"].get("kind") != "closure" or cl.kids:
+            continue   # (a function item such as `Value::is_object` tests one kind only: never both containers)
+        rs = [_closure_under_kind(fx, cl.d["agg"].get("def"), k) for k in CONTAINER_KINDS]
+        if c.d["term"]["name"] == "any" and all(r is True for r in rs):
+            out.append((bb, ft))
+        elif c.d["term"]["name"] == "all" and all(r is False for r in rs):
+            out.append((bb, tt))
+    return out
+
+
 def passthrough_kinds(ctx, fx, W, rule):
     """the full walker hands a value back unprocessed (an Ok whose payload is a copy of its parameter) only for scalar JSON kinds: with the
     parameter assumed to be an Array / an Object, no such exit is reachable, however the arms and guards are arranged"""
@@ -521,6 +595,12 @@ def passthrough_kinds(ctx, fx, W, rule):
             return
         r = cfg.reachable(W, [0], removed_edges=rem)
         bad = [e for e in raw_exits if e["bb"] in r]
+        if bad:
+            # a fast path for containers that hold scalars only: reachable solely through a "no array / object among the elements" edge
+            flat = no_container_edges(fx, W, p)
+            if flat:
+                r2 = cfg.reachable(W, [0], removed_edges=rem + [(b_, t_) for (b_, t_) in flat])
+                bad = [e for e in bad if e["bb"] in r2]
         if bad:
             ctx.finding(rule, W, "passthrough:%s" % kind, "a JSON %s can be returned as it is, without being unpacked (a guard or fast path lets it reach the scalar arm): "
                         "`_sd` / `...` placeholders beneath it survive in the verified claims and their disclosures are ignored" % kind.lower(), line=bad[0]["line"])
